@@ -29,28 +29,28 @@ CLAIMED = {
              "invariant 0<=refrac<=refrac_t, adaptation state) and arbitrary input, against the documented update equations: spikes, voltage, reset, "
              "refractory time, adaptation (incl. freezing while refractory and batch mean), spike attribute; (dt, refrac_t) incl. 0 and non-multiples; "
              "batch 1-2; refrac_lock on/off; adaptation on/off/None+train/None+eval. Spiking neurons are followed through the refractory window with "
-             "arbitrary inputs. Functional kernels additionally with symbolic hyper-parameters.",
+             "arbitrary inputs. Functional kernels additionally with symbolic hyper-parameters. The window obligations (reset to exactly the reset voltage, no spike and an unchanged locked voltage inside the window, refrac >= 0) are additionally decided bit-exactly over IEEE float32 variables (z3 floating-point theory) for the six classes without exp().",
         ref="6/C03"),
     "C04": dict(
         text="All four synapse classes: (a) T<=4 (6 thorough) steps from a cleared (also dirty-then-cleared) synapse with symbolic input spikes and injected "
              "currents against the documented kernel sums; spike record == input; grid reads of the past. (b) one step from an ARBITRARY planted "
              "history at every pointer position, then current_at/spike_at with a SYMBOLIC per-element selector in [-1, delay+2dt]: history value on the grid, "
              "the synapse's interpolation between grid points, overbound value / limit value (None) beyond the delay. dt in {1.0,(0.5),1.3}, delay in "
-             "{0,(dt),2dt,2.5dt}, interp modes, tolerances {0,1e-3}, three overbound settings, in-place and out-of-place.",
+             "{0,(dt),2dt,2.5dt}, interp modes, tolerances {0,1e-3}, three overbound settings, in-place and out-of-place. Also with step time, spike charge and delay assigned through the setters after construction.",
         ref="6/C04"),
     "C05": dict(
         text="Forward map of LinearDense/LinearDirect/LinearLateral and Conv2D with symbolic inputs (spike indicators + real currents), weights and biases "
              "against the index-level definition (padded cross-correlation with stride/dilation; output-size formula), two steps with the parameters "
              "re-assigned in between; conv geometries: all non-empty combinations of H=W in 3..5 (1..5 and rectangular thorough), kernel 1..3, stride 1-2, "
              "padding 0-1, dilation 1-2, C,F in {1,2}. Lateral: zero diagonal of weight and delay after tensor/Parameter/expression assignment and "
-             "after updater application. Helpers: like_input(like_synaptic(x)) == x on read positions; pre/post receptive views place elements as documented.",
+             "after updater application. Helpers: like_input(like_synaptic(x)) == x on read positions; pre/post receptive views place elements as documented. Lateral mask also under transposed / sub-block / expanded (non-contiguous) assignments.",
         ref="6/C05"),
     "C06": dict(
         text="Relational: a delayed connection D and an identically parameterised undelayed U receive the same symbolic input history (T=3, 5 thorough); "
              "the per-synapse DELAY TENSOR IS SYMBOLIC (any real in [0,max], or constrained to the grid, or all zero), weights and biases symbolic. At every "
              "step D.forward == sum_i w_oi * (U's synaptic current of input i read d_oi ago: history value on the grid, the synapse's documented "
              "interpolation between grid points, resting state before the start); D.syncurrent/synspike show the same shifted values; zero delay == "
-             "no delay. 4 connection types (dense, direct, lateral, conv) x 5 synapse configurations x dt in {1.0, 1.3} x max delay 2dt (1-3 dt thorough).",
+             "no delay. 4 connection types (dense, direct, lateral, conv) x 5 synapse configurations x dt in {1.0, 1.3} x max delay 2dt (1-3 dt thorough). Also: two more steps after clear(), delays re-assigned while running, concrete Python-float delays k*dt at unrepresentable step times (float32 index arithmetic on the real kernels), one- and two-channel convolutions.",
         ref="6/C06"),
     "C07": dict(
         text="(i) inferno.trace_* one-step functions from an arbitrary symbolic trace (bool and real observations, tolerance on/off, first step). (ii) all "
@@ -64,14 +64,14 @@ CLAIMED = {
              "signals) steps on SYMBOLIC pre/post spike histories (indicator arithmetic) and symbolic per-sample reward magnitudes (forked on sign): the "
              "accumulated potentiation and depression parts and the weight after update() equal the documented closed-form pair sums - STDP, TripletSTDP, "
              "MSTDP, MSTDPET x cumulative/nearest x 4 sign modes x dense/direct/lateral cells x no delay / per-synapse grid delays with delayed=True / "
-             "delayed=False x batch 2 with sum/mean reduction.",
+             "delayed=False x batch 2 with sum/mean reduction. Cells: dense 2x2 and (2,2)->(3,), direct, lateral, Conv2D with one and two input channels (weights shared over receptive fields, per-synapse delays).",
         ref="6/C08"),
     "C09": dict(
         text="Every trainer step on symbolic histories (T=3): each part handed to the updater is element-wise >= 0 and potentiation - depression equals "
              "the rule's signed update, for STDP/TripletSTDP/MSTDP/MSTDPET with every combination of constructor sign mode and per-cell override sign mode "
              "(with and without multiplicative upper/lower bounds: weight after update compared), for the 7 kernel / delay-adjusted weight and delay "
              "variants x 4 sign modes with symbolic delays and per-sample signals, and for LinearHomeostasis on weight/bias/delay (signed rule "
-             "lambda (r*-r)/r*, direction toward the target). Direction lemmas: Hebbian causal pair strengthens, anti-causal weakens, negative reward flips.",
+             "lambda (r*-r)/r*, direction toward the target). Direction lemmas: Hebbian causal pair strengthens, anti-causal weakens, negative reward flips. All cell kinds; kernel hyper-parameters as floats and as tensors.",
         ref="6/C09"),
     "C10": dict(
         text="One updater application from an arbitrary symbolic parameter with 0-3 symbolic potentiating and depressing parts: param' = param + "
@@ -79,14 +79,14 @@ CLAIMED = {
              "both halves, full} x {power 1-3, scaled power, multiplicative, scaled multiplicative, sharp}; other parameters untouched; second application "
              "after the default clear is a no-op. Range invariant (param in [min,max], magnitudes within the documented cap => param' in [min,max]) as a "
              "one-step inductive obligation; sharp never moves further beyond a reached limit. All 4-operation (5 thorough) programs over {pos, neg, both, "
-             "read, update, update(clear=False), updatesome, clear} against a reference model of the accumulators.",
+             "read, update, update(clear=False), updatesome, clear} against a reference model of the accumulators. Also updatesome() with one or two parameter names and CellTrainer.update() over cells that share a connection.",
         ref="6/C10"),
     "C11": dict(
         text="2-safety by self-composition: a batch-B component and B batch-1 copies share symbolic parameters and are planted with the SAME arbitrary "
              "symbolic per-sample state, then one step with arbitrary per-sample inputs (inductive step): outputs, state tensors, complete recorded "
              "histories and delayed reads with a symbolic selector of the batched component sliced at b equal the single-sample copy's - 8 neuron classes "
              "(adaptation frozen), 4 synapses (delay 0/2dt, in-place and not), 4 connection types with and without symbolic grid delays (T=2-3); Serial / "
-             "Biclique / RecurrentSerial layers unrolled T=2-3; trainers with a sum batch reduction: batched parts == sum of per-sample parts.",
+             "Biclique / RecurrentSerial layers unrolled T=2-3; trainers with a sum batch reduction: batched parts == sum of per-sample parts. Also: adaptive neurons frozen by adapt=False in training mode (two steps), partially fed bicliques, delayed STDP-family trainers, KernelSTDP with a sign-changing kernel.",
         ref="6/C11"),
     "C12": dict(
         text="Relational, bounded: model A runs k symbolic steps (k = 0..4 around the ring size 3), its layer/trainer/monitor state dictionaries are "
@@ -94,7 +94,7 @@ CLAIMED = {
              "steps on OTHER symbolic data, loads the snapshot, and both run 2 more steps on the same symbolic inputs: every state-dict entry (ring contents "
              "and write pointers, reducer flags/counters, adaptations, weights) and every output agree right after the load and after each step. Serial / "
              "RecurrentSerial x 4 synapses x LIF/ALIF/AdEx x heterogeneous per-synapse delays x trainers none/STDP(delayed)/MSTDPET/DelayAdjustedSTDP x "
-             "in-place/not; MaxRateClassifier with symbolic rates: derived buffers recomputed on load.",
+             "in-place/not; MaxRateClassifier with symbolic rates: derived buffers recomputed on load. The model carries an input monitor with a 3-slot reducer (in-place or not) and a single-slot state monitor on the voltage; the classifier is checked from fresh / assigned / trained sources with learning after the restore; reachability witnesses guard against vacuous passes.",
         ref="6/C12"),
     "C13": dict(
         text="Temporal setters (dt, duration, inclusive) on records whose contents are symbolic markers: size formula (native float arithmetic, incl. "
@@ -102,21 +102,21 @@ CLAIMED = {
              "the next push overwrites only the oldest slot; all single-setter changes with size <= 4 (6 thorough) from pointers {0,1,N-1} (all), buffer and "
              "Parameter storage, and 3-setter sequences incl. None/empty/Uninitialized storage. Shape-constraint edits on records (tail preserved, head "
              "zero). ShapedTensor bookkeeping: all 2-call (3 thorough) reconstrain programs over dims in [-rank,rank], sizes {None,1,2,3}, strict and not: "
-             "valid => every constraint holds; incompatible addition refused without side effects; removal never alters data.",
+             "valid => every constraint holds; incompatible addition refused without side effects; removal never alters data. Also bool / int64 / float64 records (dtype kept) and constraints registered before storage exists.",
         ref="6/C13"),
     "C14": dict(
         text="Relational: X constructed at c1 and brought to c2 by setter calls (single attributes and 2-setter sequences, both directions) versus Y "
              "constructed at c2 - synapses (4 classes; dt, delay, batchsz, inplace), neurons (8 classes; dt, batchsz), connections (dense/direct/lateral; "
              "dt, batchsz, replacement synapse, synapse delay), reducers (dt, duration, inplace; all orders), .to(float64). Concrete obligations: getters "
              "report c2, every internal record has Y's size/step time/duration; symbolic obligations: from a cleared state X and Y give equal outputs, "
-             "states, delayed reads (symbolic selector), views and dumps for T = 2-3 symbolic input steps.",
+             "states, delayed reads (symbolic selector), views and dumps for T = 2-3 symbolic input steps. Also bare records: dt / duration / inclusive setters in both orders.",
         ref="6/C14"),
     "C15": dict(
         text="Exhaustive enumeration (solver-driven choice points) of lifecycle programs up to the length bound over {layer step, trainer train/eval, layer "
              "train/eval, trainer clear, del/register cell, trainer step} on a Serial layer and on a Biclique whose two cells share the post-synaptic group "
              "(pooled monitors), and two-trainer programs over {step, second trainer register/del/eval/train/clear, drop}. Every layer step feeds fresh "
              "SYMBOLIC spikes, so 'each monitor of each registered cell recorded exactly the armed steps, once' is an equality with the closed-form trace over "
-             "exactly those steps, decided by the solver for all spike values; cell and monitor listings are compared with a reference model.",
+             "exactly those steps, decided by the solver for all spike values; cell and monitor listings are compared with a reference model. Also user monitors added / deleted / replaced (unique=True), repeated arm/disarm cycles, and one trainer over two separate layers.",
         ref="6/C15"),
     "C16": dict(
         text="(a) exhaustive enumeration (solver-driven choice points) of all lifecycle programs up to the length bound over {register, deregister, train, "
@@ -124,14 +124,14 @@ CLAIMED = {
              "prefixes register-deregister-register: the probe hook runs exactly when registered and its mode is enabled (pre sees the module before, post "
              "after the call), no dangling handle remains. (b) solver verdict over SYMBOLIC attribute tensors: after Clamping every element is within "
              "[min,max] and inside values are unchanged (buffer and nested connection weight); after Normalization the p-norm along the chosen dims "
-             "equals |scale| for p in {1,2,inf} (p=2 decomposed into element-wise quotient + an algebraic lemma), zero vectors stay zero.",
+             "equals |scale| for p in {1,2,inf} (p=2 decomposed into element-wise quotient + an algebraic lemma), zero vectors stay zero. Enable flags are also flipped after registration; clamping is decided over the reals and bit-exactly in float32, including limits equal to 0.",
         ref="6/C16"),
     "C17": dict(
         text="Relational: Serial / Biclique (sum, mean, prod, min, max, custom; with and without connection/neuron transforms) / RecurrentSerial (T=3, "
              "feedback synapse with and without memory and bias) outputs, intermediate currents and every component state versus a hand composition of "
              "separately built, identically parameterised components, for symbolic input spikes and symbolic weights; output shapes == batched shape. "
              "clear(): k arbitrary steps, clear, T replay steps == fresh layer (3 layer types x delta/single/double exponential synapses x LIF/ALIF, plus "
-             "a delayed connection); parameters and adaptations unchanged by clear.",
+             "a delayed connection); parameters and adaptations unchanged by clear. One- and two-connection bicliques; reachability witnesses (a spike, a feedback spike, activity before clear).",
         ref="6/C17"),
     "C18": dict(
         text="Real Serial layer with a delayed connection + real DelayAdjustedSTDP/STDPD, DelayAdjustedKernelSTDP/STDPD, DelayAdjustedMSTDP/MSTDPD and "
@@ -139,7 +139,7 @@ CLAIMED = {
              "[0,3dt] (re-assigned every step for the delay-learning variants): every step's potentiation and depression parts equal the documented "
              "function of t_delta (causal branch iff t_delta >= 0, no change and no NaN while either side has not spiked), 4 sign modes, dense and direct "
              "cells, scalar and per-sample signals. Relational: kernel STDP with the shipped exponential kernels == delay-adjusted STDP (weights and "
-             "delays); with all delays zero delay-adjusted == unadjusted KernelSTDP.",
+             "delays); with all delays zero delay-adjusted == unadjusted KernelSTDP. Also Conv2D cells, per-cell sign overrides, tensor-valued kernel hyper-parameters, and one trainer over several cells against single-cell trainers (10 trainer classes).",
         ref="6/C18"),
     "C19": dict(
         text="The three encoder classes (offline and online) and the functional encoders run on SYMBOLIC intensities in [0,1] (zero pattern forked) with every "
@@ -147,7 +147,7 @@ CLAIMED = {
              "generator seed; IEEE specials modelled for zero intensities: boolean output with exactly `steps` time-first slices (or yielded slices), no spike "
              "for a zero intensity, consecutive spikes of an element >= ceil(refrac/dt) steps apart (refrac None/dt/2dt/3dt, compensate on/off), scatter "
              "indices in range, no exception. steps <= 4 (5), 1-2 elements, dt in {1.0,0.5}, frequency in {10,500,(1000)}. NOT covered: reproducibility under "
-             "the same Generator state, rate statistics.",
+             "the same Generator state, rate statistics. Reproducibility is decided as a dataflow fact: every random op on every path receives the encoder's own generator. Step times include values where refrac/dt is inexact in floating point.",
         ref="6/C19"),
     "C20": dict(
         text="(i) interp(extrap(x)) == x for the 10 matching pairs and every extrapolation kernel == its documented closed form, linear interpolation "
@@ -156,7 +156,7 @@ CLAIMED = {
              "(terminates), CDF formula, Normal mean/variance round trip. (iii) Victor-Purpura on sorted symbolic spike-time vectors (sizes <= (3,1)/(2,2), "
              "(3,3) thorough) with symbolic finite and finite-or-infinite cost: identity, symmetry, triangle, |n0-n1| <= d <= n0+n1, documented limits at "
              "cost 0 and inf, tensor cost == float cost. (iv) ISI: every raster up to 8 bits (path enumeration). NOT covered: integral / moment identities, "
-             "LogNormal parameter round trip.",
+             "LogNormal parameter round trip. Also adjust callables in the linear extrapolations, large concrete Poisson supports (float32 range of the factorial) and the degenerate rate 0.",
         ref="6/C20"),
 }
 
